@@ -595,6 +595,11 @@ where
             if let Some((&j, w)) = self.iter.next() {
                 let index = self.index;
                 self.index += 1;
+                // an undirected edge is stored in both rows: yield it only from
+                // the row of its smaller endpoint, so that every edge appears once
+                if !Ty::is_directed() && j.index() < self.source_index.index() {
+                    continue;
+                }
                 return Some(EdgeReference {
                     index,
                     source: self.source_index,
